@@ -438,5 +438,6 @@ pub fn check() -> Check {
             Workload { name: "forget", f: forget_case, quick: 30_000, thorough: 2_000_000, flav: Flav::Checked },
         ],
         exhaustive: false,
+        aggregate: None,
     }
 }
